@@ -103,7 +103,13 @@ where
     let mut m_total = 0usize;
     let mut prev: Option<(f64, f64, bool)> = None; // (eps, eps_bar, was a warm-up transition) after the previous transition
     let mut samples = vec![];
+    let reseed = params.get("reseed").and_then(|v| v.as_bool()).unwrap_or(false);
     for (ci, (ncol, ndis)) in calls.iter().enumerate() {
+        if reseed && ci > 0 {
+            // the caller re-seeds the chain between two runs: a new random stream, the same adaptation state
+            chain = chain.set_seed(mix(pu(params, "seed"), ci as u64));
+            o.count("probe_reseeded_between_calls", 1);
+        }
         mcmc_sim::trace::start();
         let _ = mcmc_sim::sim::take_last_panic();
         let r = std::panic::catch_unwind(std::panic::AssertUnwindSafe(|| chain.run(*ncol, *ndis)));
@@ -312,7 +318,7 @@ impl Scenario for DualAveraging {
         let float = *g.pick(&["f64", "f64", "f32"]);
         // an additive constant of the log-density (f64 only; in f32 it would legitimately swamp the energies)
         let offset = if float == "f64" && g.bool(1, 4) { g.log_uniform(1e2, 1e9) * if g.bool(1, 2) { 1.0 } else { -1.0 } } else { 0.0 };
-        json!({"float": float, "family": *g.pick(&["smooth", "smooth", "smooth", "scaled", "scaled", "halfline", "box"]), "gseed": g.u64(), "seed": g.u64(), "accept": fbits(g.f64_in(0.5, 0.99)), "start_scale": fbits(g.log_uniform(0.1, 3.0)), "calls": calls, "offset": fbits(offset)})
+        json!({"float": float, "family": *g.pick(&["smooth", "smooth", "smooth", "scaled", "scaled", "halfline", "box"]), "gseed": g.u64(), "seed": g.u64(), "accept": fbits(g.f64_in(0.5, 0.99)), "start_scale": fbits(g.log_uniform(0.1, 3.0)), "calls": calls, "offset": fbits(offset), "reseed": n_calls > 1 && g.bool(1, 3)})
     }
     fn execute(&self, p: &Value, ws: bool) -> Outcome {
         if ps(p, "float") == "f32" {
@@ -345,7 +351,7 @@ impl Scenario for DualAveraging {
         out
     }
     fn rule(&self) -> &'static str {
-        "one run = a history of 1-4 run(n_collect 1..6, n_discard 0..40; thorough: up to 2000) calls on one seeded NUTSChain (warm-up counter persists), requested rate 0.5..0.99, smooth targets plus half-line / box targets (for positivity and finiteness only); after every transition the dual-averaging recurrence, the freeze invariant and positivity are checked; distinct = parameter hash"
+        "one run = a history of 1-4 run(n_collect 1..6, n_discard 0..40; thorough: up to 2000) calls on one seeded NUTSChain (warm-up counter persists; 1 history in 3 re-seeds the chain between calls), requested rate 0.5..0.99, smooth targets plus half-line / box targets (for positivity and finiteness only); after every transition the dual-averaging recurrence, the freeze invariant and positivity are checked; distinct = parameter hash"
     }
     fn components(&self) -> Value {
         json!({"real": ["NUTSChain::run/step (adaptation block)", "init_chain", "find_reasonable_epsilon"], "stub": ["dual targets"]})
